@@ -45,7 +45,7 @@ def mod():
 
 def _ir():
     return domain.ir_strategy(allowed=CORE_ALLOWED, min_params=1, max_params=4, argparse_only=True,
-                              base_exclude=("int_literal", "none_default", "required_bool", "single_literal"))
+                              base_exclude=())
 
 
 @st.composite
